@@ -392,6 +392,9 @@ where
 }
 
 //--- Hash
+//
+// Like equality and ordering, this ignores the TTL: equal records have to
+// produce equal hashes.
 
 impl<Name, Data> hash::Hash for Record<Name, Data>
 where
@@ -401,7 +404,6 @@ where
     fn hash<H: hash::Hasher>(&self, state: &mut H) {
         self.owner.hash(state);
         self.class.hash(state);
-        self.ttl.hash(state);
         self.data.hash(state);
     }
 }
